@@ -78,7 +78,7 @@ def run(tier, seed, model):
     camp = common.Campaign()
     rng = random.Random(seed * 7919 + 3)
     n = 1200 if tier == "quick" else 30000
-    batch = Batch(model)
+    batch = Batch(model, camp, "C03")
     # every supported version plus boundary banners x variants, deterministic part
     banners = rfbgen.SUPPORTED + [(3, 4), (3, 6), (3, 9), (3, 888), (3, 890), (3, 999), (4, 2), (5, 1), (9, 9), (999, 999),
                                   (4, 999), (3, 3), (3, 0), (0, 0), (2, 999)]
